@@ -126,6 +126,16 @@ fn adversarial(r: &mut Rng, i: u64) -> (String, String) {
             let filt = *r.pick(&["FlateDecode", "LZWDecode", "ASCII85Decode", "FlateDecode,ASCII85Decode", "ASCII85Decode,LZWDecode", "LZWDecode,LZWDecode,LZWDecode"]);
             let parms = format!("D5 {} i{} {} i{} {} i{} {} i{} {} i{}", hex(b"Predictor"), r.pick(&["10", "12", "15", "2", "1", "14"]), hex(b"Columns"), clampi(&x(r)), hex(b"Colors"), clampi(&x(r)), hex(b"BitsPerComponent"), clampi(&x(r)), hex(b"EarlyChange"), r.below(2));
             let data = if r.chance(1, 2) { let mut e = flate2::write::ZlibEncoder::new(vec![], flate2::Compression::fast()); use std::io::Write; let _ = e.write_all(&r.bytes(64)); e.finish().unwrap() } else { r.bytes(40) };
+            if r.chance(1, 2) {
+                // a well-formed predictor frame (rows of 1 + cols bytes) cut short by 0..3 bytes
+                let cols = 1 + r.usize(6); let rows = 1 + r.usize(5);
+                let mut frame = vec![]; for _ in 0..rows { frame.push(r.below(5) as u8); frame.extend(r.bytes(cols)); }
+                let cut = r.usize(4).min(frame.len()); frame.truncate(frame.len() - cut);
+                let mut e = flate2::write::ZlibEncoder::new(vec![], flate2::Compression::fast()); use std::io::Write; let _ = e.write_all(&frame);
+                let z = e.finish().unwrap();
+                let parms = format!("D2 {} i{} {} i{}", hex(b"Predictor"), 10 + r.below(6), hex(b"Columns"), cols);
+                return ("predictor-truncated".into(), format!("F FlateDecode {} ; {}", parms, hex_tok(&z)));
+            }
             ("filter-extremes".into(), format!("F {} {} ; {}", filt, parms, hex_tok(&data))) }
         6 => { // ASCII85 adversarial
             let alphabet = b"!\"#$%&'()*+,-./0123456789:;<=>?@ABCDEFGHIJKLMNOPQRSTUVWXYZ[\\]^_`abcdefghijklmnopqrstuz~> \n";
